@@ -24,7 +24,7 @@ struct C07 : Scenario {
 		return "a run is one generated archive of 1-5 members (all 14 methods, no MacLHA members) plus one family of storage faults, each "
 		       "fault one evaluation: (a) truncation at EVERY byte offset (strided above 1200), (b) for stored members bursts of 1-16 "
 		       "flipped bits (consecutive in the bit order CRC-16/ARC processes: LSB of each byte first) at EVERY bit offset x every burst length (interior bits seeded), (c) recorded CRC or length rewritten to a "
-		       "wrong value with header integrity repaired, (d) seeded damage inside compressed data. Per evaluation every member's check "
+		       "wrong value with header integrity repaired, (d) seeded damage inside compressed data, (e) F-WRITE: the output medium fails from byte n on, for every n (strided above 600), under several stdio buffer sizes, (f) several decode operations on one entry (check,extract / read,extract / ...). Per evaluation every member's check "
 		       "verdict is compared with [len(bytes produced) == recorded length and bitwise CRC-16(bytes) == recorded CRC], the bytes "
 		       "being captured by a twin reader; sampled evaluations also run 'lha t' / 'lha x' in-process and compare the "
 		       "Tested/Melted/CRC error/Failure lines, the extracted files and the exit status. Non-trivial = at least one member judged "
@@ -38,8 +38,8 @@ struct C07 : Scenario {
 	Plan generate(uint64_t seed, uint64_t run, const std::string &) override {
 		Rng rng(seed, 7, run);
 		Plan p;
-		static const char *fams[] = {"truncate", "burst", "rewrite", "damage"};
-		std::string fam = fams[run % 4];
+		static const char *fams[] = {"truncate", "burst", "rewrite", "damage", "write_fault", "api_sequence"};
+		std::string fam = fams[run % 6];
 		p.scenario = fam;
 		TreeOpts o;
 		o.max_entries = 1 + (int) rng.below(5);
@@ -94,6 +94,14 @@ struct C07 : Scenario {
 		p.seti("euid", rng.chance(1, 2) ? 0 : 1000);
 		static const char *tq[] = {"t", "tq0", "tq1", "xf", "xq0", "xq1", "tv", "ef"};
 		p.sets("clicmd", tq[rng.below(8)]);
+		if (fam == "write_fault") {
+			static const char *xq[] = {"xf", "xq0", "xq1", "ef"};
+			p.sets("clicmd", xq[rng.below(4)]);
+			static const int bufs[] = {0, 1, 64, 512, 0};
+			p.seti("outbuf", bufs[rng.below(5)]);
+			static const int errs[] = {28, 5, 27, 122};   // ENOSPC EIO EFBIG EDQUOT
+			p.seti("write_errno", errs[rng.below(4)]);
+		}
 		return p;
 	}
 	// library-level judgement of one faulted archive
@@ -198,6 +206,82 @@ struct C07 : Scenario {
 		if (!c18_output_ok(r.out + r.err, &bad)) { res.fail("C18.printable", "printable:c07", ctx + ": non-printable byte on the terminal"); return false; }
 		return true;
 	}
+	// the tool extracts everything while the output medium fails from byte n on
+	bool write_fault_eval(const Plan &p, const Bytes &arch, const std::vector<MemberJudgement> &js, int64_t n, RunResult &res) {
+		Plan q = p;
+		std::string cmd = p.gets("clicmd", "xf");
+		q.argv = {"lha", cmd, "/w/a.lzh"};
+		q.seti("write_fail_at", n);
+		CliEnv env(q);
+		g_sim.budget = g_sim.steps + 100000 + 64 * arch.size();
+		sim_watchdog_kick();
+		CliResult r = env.run(q, arch);
+		if (r.budget) { res.fail("C07.budget", "budget:cli", "the tool did not finish within the step budget"); return false; }
+		std::string ctx = strf("'lha %s' with the output medium failing (errno %d) from byte %lld on, output buffering %d", cmd.c_str(), (int) p.geti("write_errno", 28), (long long) n, (int) p.geti("outbuf", 0));
+		// which members were reported Melted?
+		std::vector<int> got;
+		size_t pos = 0;
+		while (pos < r.out.size()) {
+			size_t a1 = r.out.find("\t- Melted", pos), b1 = r.out.find("\t- Failure", pos);
+			if (a1 == std::string::npos && b1 == std::string::npos) break;
+			if (a1 < b1) { got.push_back(1); pos = a1 + 4; } else { got.push_back(0); pos = b1 + 4; }
+		}
+		size_t gi = 0;
+		bool any_short = false;
+		for (auto &j : js) {
+			if (j.h.method == "-lhd-" || j.h.os == 'm') continue;
+			std::string rel = j.h.full();
+			while (!rel.empty() && rel[0] == '/') rel.erase(0, 1);
+			int ino = env.fs.lookup("/w/x/y/root/" + rel, false);
+			bool file_ok = ino >= 0 && env.fs.nodes[ino].type == 'f' && env.fs.nodes[ino].data == j.out;
+			bool complete = file_ok && j.expect_good;
+			if (!complete) any_short = true;
+			if (gi < got.size()) {
+				if (got[gi] == 1 && !complete) {
+					res.fail("C07.good_but_mismatch", "cli:write_fault:line", ctx + ": member " + printable(rel) + strf(" was reported 'Melted' but the file holds %zu of %zu bytes", ino >= 0 ? env.fs.nodes[ino].data.size() : (size_t) 0, j.out.size()));
+					return false;
+				}
+				++gi;
+			}
+		}
+		if (any_short && r.status == 0 && !r.exited) {
+			res.fail("C07.exit_status", "cli:write_fault:exit", ctx + ": exit status 0 although an extracted file is incomplete");
+			return false;
+		}
+		return true;
+	}
+	// several decode operations on the same entry through the library
+	bool api_sequence_eval(const Plan &p, const Bytes &arch, const std::vector<MemberJudgement> &js, const char *const seq[3], RunResult &res) {
+		CliEnv env(p);   // filesystem only
+		g_sim.fs = &env.fs;
+		Task t;
+		t.kind = "FILE_SEEK";
+		t.dir = "/w/x/y/root";
+		for (size_t i = 0; i < js.size() + 1; ++i) {
+			Op n; n.kind = "next"; t.ops.push_back(n);
+			for (int k = 0; k < 3 && seq[k][0]; ++k) { Op o; o.kind = seq[k]; o.arg = !strcmp(seq[k], "read") ? 7 : 0; t.ops.push_back(o); }
+		}
+		DriveOpts o;
+		o.stop_at_null = true;
+		o.budget = 50000 + 32 * arch.size();
+		DriveOut d = drive_reader(t, arch, o);
+		g_sim.fs = nullptr;
+		std::string what = std::string("sequence ") + seq[0] + "," + seq[1] + (seq[2][0] ? std::string(",") + seq[2] : "");
+		if (d.budget) { res.fail("C07.budget", "budget:seq", what + ": a call did not return"); return false; }
+		int mi = -1;
+		for (auto &ob : d.obs) {
+			if (ob.kind == "next") { ++mi; continue; }
+			if (mi < 0 || (size_t) mi >= js.size()) continue;
+			const MemberJudgement &j = js[mi];
+			if (j.h.method == "-lhd-" || j.h.os == 'm') continue;
+			if (ob.kind == "check" && ob.result && !j.expect_good) { res.fail("C07.good_but_mismatch", "lib:seq:check", what + strf(": member %d: check reported success for bytes that do not match", mi)); return false; }
+			if (ob.kind == "extract" && ob.result) {
+				bool file_ok = ob.post_type == 'f' && ob.post_data == j.out && j.expect_good;
+				if (!file_ok) { res.fail("C07.good_but_mismatch", "lib:seq:extract", what + strf(": member %d: extract reported success but the file holds %zu bytes, the member's %s bytes are %zu", mi, ob.post_data.size(), j.expect_good ? "matching" : "non-matching", j.out.size())); return false; }
+			}
+		}
+		return true;
+	}
 	RunResult execute(const Plan &p, Plan *narrowed) override {
 		begin_run(p);
 		RunResult res;
@@ -216,6 +300,12 @@ struct C07 : Scenario {
 			narrowed->seti("must_be_bad", must_be_bad);
 			if (q) narrowed->patches.push_back(*q);
 		};
+		if (p.scenario == "single_write_fault") {
+			if (judge_lib(p, a.bytes, -1, ki, js, res, "replay", budget)) write_fault_eval(p, a.bytes, js, p.geti("write_fail_at", 0), res);
+			res.nontrivial = true;
+			res.trace = finish_trace();
+			return res;
+		}
 		if (p.scenario == "single") {
 			int64_t tr = p.geti("trunc", -1);
 			if (judge_lib(p, a.bytes, tr, ki, js, res, "replay", budget)) judge_cli(p, a.bytes, tr, js, res, "replay");
@@ -225,6 +315,36 @@ struct C07 : Scenario {
 			res.nontrivial = true;
 			res.trace = finish_trace();
 			return res;
+		}
+		if (p.scenario == "write_fault" || (p.scenario == "single" && false)) {
+			// F-WRITE: the output medium refuses data from byte n on, for every n up to the total size of the selected
+			// members (+1). A member may fail, but 'Melted' / exit status 0 must not stand for a file that lacks bytes.
+			if (!judge_lib(p, a.bytes, -1, ki, js, res, p.scenario, budget)) { narrow(-1, nullptr); goto done; }
+			tally();
+			size_t total = 0;
+			for (auto &j : js) if (j.h.method != "-lhd-") total += j.out.size();
+			size_t step = total > 600 ? total / 600 + 1 : 1;
+			for (size_t n = 0; n <= total && res.ok; n += step) {
+				++evals;
+				if (!write_fault_eval(p, a.bytes, js, (int64_t) n, res)) {
+					if (narrowed) { *narrowed = p; narrowed->scenario = "single_write_fault"; narrowed->seti("write_fail_at", (int64_t) n); }
+				}
+			}
+			count("fault.F-WRITE", evals);
+			goto done;
+		}
+		if (p.scenario == "api_sequence") {
+			// several decode operations on one entry (check then extract, read then extract, ...): whatever they return,
+			// a success must stand for bytes that match the header
+			if (!judge_lib(p, a.bytes, -1, ki, js, res, p.scenario, budget)) { narrow(-1, nullptr); goto done; }
+			tally();
+			static const char *seqs[][3] = {{"check", "extract", ""}, {"read", "extract", ""}, {"read", "check", "extract"}, {"extract", "extract", ""},
+			                                {"check", "check", ""}, {"extract", "check", ""}, {"read", "check", ""}};
+			for (auto &sq : seqs) {
+				++evals;
+				if (!api_sequence_eval(p, a.bytes, js, sq, res)) break;
+			}
+			goto done;
 		}
 		// the archive as generated (families c and d carry their fault in the plan)
 		++evals;
@@ -285,6 +405,7 @@ struct C07 : Scenario {
 			}
 			count("fault.D-BURST", evals);
 		}
+	done:
 		if (p.scenario == "rewrite") count("fault.D-FIELD");
 		if (p.scenario == "damage") count("fault.D-BYTE", p.patches.size());
 		g_sim.counters["evals"] = evals;
